@@ -189,7 +189,7 @@ Lemma oom_clean c f s idx o : valid_cfg c = true -> valid_op o = true -> inv c i
   (forall b, In b (s_blocks s) -> In (b_id b) (s_table s')) /\
   balanced (o_calls ob) = true /\ o_total ob = total s /\ s_err s' = false /\ inv c (idx + 1) s'.
 Proof.
-  intros Hc Hv H. cbv zeta. pose proof (step_ok c f s idx o Hc Hv H) as [Hinv _].
+  intros Hc Hv H. cbv zeta. pose proof (step_ok false c f s idx o Hc Hv H) as [Hinv _].
   pose proof (step_shape c f s idx o Hc Hv H) as Hsh. revert Hinv.
   destruct Hsh as [o r fd fam d Hp | i n b0 r Hin _ Hp | o s' ob Hnf _ _]; intros Hinv Hf.
   - destruct r as [[a s'] cs]. unfold alloc_post in Hp. destruct Hp as (_ & _ & Herr & Hp).
@@ -350,7 +350,7 @@ Section Placement.
       - cbn [fold_left fst length N.of_nat]. rewrite N.add_0_r. exact H.
       - cbn [forallb] in Hv. apply andb_true_iff in Hv. destruct Hv as [Hv Hr]. cbn [fold_left fst snd].
         replace (idx + N.of_nat (length (o :: r))) with (idx + 1 + N.of_nat (length r)) by (cbn [length]; lia).
-        apply IH; [exact Hr|]. exact (proj1 (step_ok c f s idx o Hc Hv H)). }
+        apply IH; [exact Hr|]. exact (proj1 (step_ok false c f s idx o Hc Hv H)). }
     apply (live_disjoint_inv _ _ (Hgen ops st0 0 Hv (inv_st0 c))).
   Qed.
 End Placement.
@@ -407,7 +407,7 @@ Qed.
 
 (* ------------------------------------------------------------------ the code as it was: each of the repaired defects violates the oracle *)
 Definition ex_cfg : cfg := {| guard_on := true; node_size := 64 |}.
-Definition mk_sc (f : list N) (ops : list op) : scenario := {| sc_cfg := ex_cfg; sc_fail := f; sc_ops := ops |}.
+Definition mk_sc (f : list N) (ops : list op) : scenario := {| sc_cfg := ex_cfg; sc_wrap := false; sc_fail := f; sc_ops := ops |}.
 (* D2: a size whose bookkeeping wraps is served from a 72-byte region *)
 Definition witness_D2 := mk_sc [] [ODetAlloc (W - 3)].
 (* D3: calloc(2^63 + 1, 2) returns a block for the wrapped product *)
@@ -451,7 +451,7 @@ Example ex_oom : let r := step fixed ex_cfg [3] (fst (step fixed ex_cfg [] st0 0
   valid_op (ORealloc (Some 0) 100) = true /\ any_failed (o_calls (snd r)) = true /\ o_kind (snd r) = K_NULL /\ s_table (fst r) = [0].
 Proof. lazy. repeat split. Qed.
 Example ex_oom_inv : inv ex_cfg 1 (fst (step fixed ex_cfg [] st0 0 (OMalloc 5))).
-Proof. exact (proj1 (step_ok ex_cfg [] st0 0 (OMalloc 5) eq_refl eq_refl (inv_st0 ex_cfg))). Qed.
+Proof. exact (proj1 (step_ok false ex_cfg [] st0 0 (OMalloc 5) eq_refl eq_refl (inv_st0 ex_cfg))). Qed.
 
 Definition ex_ops : list op := [OMalloc 5; ONew false true 9].
 Definition ex_base (r : N) : N := r * 2097152.
